@@ -57,7 +57,7 @@ pub fn find(d: &[u8]) -> Found {
     let fmt = if d.starts_with(b"MZ") { pe(&mut b); "pe" }
         else if d.starts_with(b"\x7fELF") { elf(&mut b); "elf" }
         else if d.len() >= 4 && (d[..4] == [0xcf, 0xfa, 0xed, 0xfe] || d[..4] == [0xce, 0xfa, 0xed, 0xfe] || d[..4] == [0xfe, 0xed, 0xfa, 0xce] || d[..4] == [0xfe, 0xed, 0xfa, 0xcf]) { macho_thin(&mut b, 0); "macho" }
-        else if d.len() >= 8 && (d[..4] == [0xca, 0xfe, 0xba, 0xbe] || d[..4] == [0xca, 0xfe, 0xba, 0xbf]) { macho_fat(&mut b); "macho" }
+        else if d.len() >= 8 && d[..4] == [0xca, 0xfe, 0xba, 0xbe] { macho_fat(&mut b); "macho" }
         else if d.starts_with(&[0x4c, 0, 0, 0]) { lnk(&mut b); "lnk" }
         else if d.starts_with(b"dex\n") { dex(&mut b); "dex" }
         else if d.starts_with(b"Cr24") { crx(&mut b); zip(&mut b); "crx" }
